@@ -100,6 +100,11 @@ Example ladder_model_nontrivial :
 Proof. vm_compute. auto. Qed.
 
 (* ------------------------------------------------------------------ part 2: generated tables *)
+Lemma Forall2_conj {A B} (P Q : A -> B -> Prop) l1 l2 :
+  Forall2 P l1 l2 -> Forall2 Q l1 l2 -> Forall2 (fun a b => P a b /\ Q a b) l1 l2.
+Proof.
+  intros H. induction H; intros HQ; inversion HQ; subst; constructor; auto.
+Qed.
 Lemma Forall2_imp {A B} (P Q : A -> B -> Prop) l1 l2 :
   (forall a b, P a b -> Q a b) -> Forall2 P l1 l2 -> Forall2 Q l1 l2.
 Proof. intros HPQ H. induction H; constructor; auto. Qed.
@@ -165,11 +170,8 @@ Proof.
   intros b Hin. pose proof status_tables_ok as H.
   apply andb_true_iff in H as [H _]. apply andb_true_iff in H as [H _]. apply andb_true_iff in H as [H1 H2].
   pose proof (proj1 (forallb_forall _ _) H1 b Hin) as Hs. pose proof (proj1 (forallb_forall _ _) H2 b Hin) as Hm.
-  unfold sblock_spec_ok in Hs. unfold sblock_model_ok in Hm.
-  destruct (sb_outs b) as [|g1 [|g2 [|g3 r]]]; cbn in Hs, Hm; try discriminate.
-  apply andb_true_iff in Hs as [Hs1 Hs2]. apply andb_true_iff in Hs2 as [Hs2 _].
-  apply andb_true_iff in Hm as [Hm1 Hm2]. apply andb_true_iff in Hm2 as [Hm2 _].
-  repeat constructor; assumption.
+  apply forallb2_Forall2 in Hs. apply forallb2_Forall2 in Hm.
+  exact (Forall2_conj _ _ _ _ Hs Hm).
 Qed.
 
 Theorem status_codes_documented : forall r, In r status_rows -> srow_ok r = true.
